@@ -675,12 +675,12 @@ func init() {
 			&engine.Enum[c07SecCase]{
 				Name: "sections",
 				Rule: "case = one program_number sequence of 0..4 entries (thorough 0..6) over {0,1,2,0xFFFF} with distinct non-zero numbers x one of 4 (transport_stream_id, version, current_next, cc) patterns; Check runs the full product of per-entry (PID in {0x10,0x100,0x1FFF,0x0FFF}, reserved bits in {111,000}) (thorough: 8 PIDs up to 3 entries, reserved {111,000,101}; 5-6 entries: cyclic covering family + single deviations) through 6 carriers: payload bytes, payload + 1/3 stuffing bytes, 188-byte packet (payload padded / adaptation-field stuffing), ReadPAT on the one-packet stream; each carrier: NumPrograms, ProgramMap (exact map), SPTSpmtPID (value or failure), IsPMT on every entry PID, +-1, bit-12 flip, low byte, 0, 1, 0x1FFF; non-trivial = each distinct section",
-				Gen:  c07GenSections, Check: c07CheckSections, Batch: 1,
+				Gen:  c07GenSections, Check: witnessEnum(c07CheckSections, witnessPSI), Batch: 1,
 			},
 			&engine.Enum[c07BigCase]{
 				Name: "large-sections",
 				Rule: "case = section of N entries, N in {5,6,7,41,42,43,100,252,253} (thorough: every N in 5..253) x network entry at {none, first, middle, last} x 2 numbering/PID/reserved-bit variants; carriers as in 'sections' (packet and stream carriers only while the section fits one packet, N<=42); IsPMT evaluated on all 8192 PIDs (for the N outside the quick list only in the first variant without network entry; otherwise on every entry PID and its successor); the reference reader must recover the reference builder's section; non-trivial = each case",
-				Gen:  c07GenBig, Check: c07CheckBig, Batch: 1,
+				Gen:  c07GenBig, Check: witnessEnum(c07CheckBig, witnessPSI), Batch: 1,
 			},
 			&engine.Tree{
 				Name: "streams",
@@ -691,7 +691,7 @@ func init() {
 					}
 					return 4
 				},
-				Body: c07StreamBody,
+				Body: witnessTree(c07StreamBody, witnessPSI),
 			},
 			&engine.Enum[c07NilCase]{
 				Name: "nil-pat",
